@@ -1,12 +1,18 @@
 import ArtapModel.Model.Runs
 import ArtapModel.Props.C02
 import ArtapModel.Props.C03
+import ArtapModel.Proofs.Nsga2
 /-!
 # C09 — generation bookkeeping, evaluation budget, ε-MOEA acceptance
 
-Property theorems for `Model/Runs.lean` (core Lean only).  The elitism clause is proved in
-`Props/C03.lean` (`truncate_rank_first`, `truncate_no_survivor_dominated`) and is tied to real
-NSGA-II runs by harness/c09.py.
+Property theorems for `Model/Runs.lean` (the `generate` loop, `pop_acceptance`, run counters) and
+for the composed run model `Model/Nsga2.lean` (`nsga2Run`, `epsMoeaRun`: the generation loops
+built from `generate`, the evaluator model with its fault oracle, `fnds`, `crowding`, `truncate`,
+`popAccept`, `Archive.add`): `nsga2_run_budget`, `nsga2_run_generations`, `nsga2_run_elitism`
+(with `nsga2_step_elitism`, which discharges the hypotheses of `nsga2_elitism` for the front
+numbers computed inside the step), `nsga2_best_monotone`, `epsmoea_run_budget_generations`.
+Helper lemmas: `Proofs/Nsga2.lean`.  harness/c09.py replays recorded real runs step by step and
+as a whole through the run model.
 -/
 namespace Artap.C09
 open Artap Artap.Runs
@@ -339,6 +345,336 @@ theorem nsga2_elitism {α : Type} [LinearOrder α] (costs : List (List α × Int
   rw [hfront i hip] at ei
   cases ej; cases ei
   omega
+
+/-! ## The composed run model (`Model/Nsga2.lean`)
+
+`nsga2Run cfg G init steps = some r` says: the NSGA-II run with `max_population_size = cfg.N`,
+`max_population_number = G`, initial vectors `init` (the generator's output), the per-iteration
+oracles `steps` (children delivered by selection/crossover/mutation, order of `list(set(…))`)
+and the evaluation oracle `cfg.env` (objective, fault pattern, re-rolled vectors) ran to its end
+and recorded `r.recorded`.  `none` = the real run would not end normally (children oracle dry –
+the real loop keeps drawing –, an exception escaped the evaluator after five failures, the
+`set()` oracle is not a de-duplication of the merged population, a comparator raised).
+`gen t r.recorded` is recorded generation `t`.  All theorems hold for every oracle. -/
+
+section RunModel
+open Artap.Nsga2 Artap.Eval
+
+/-- `generate_size` for the run model's configuration. -/
+theorem run_generate_size (cfg : Cfg) (hN : 2 ≤ cfg.N) (ps : List (Vec × Vec)) (offs : List Vec)
+    (h : generate cfg.eq cfg.N ps [] = some offs) : offs.length = cfg.N ∧ NoEq cfg.eq offs :=
+  generate_size cfg.eq cfg.N hN ps [] offs (by simp) (by simp [NoEq]) h
+
+/-- **Budget.**  A run that ends made exactly `N·G` successful objective evaluations – whatever
+failed in between (every call is logged, every failed call is also on `Problem.failed`). -/
+theorem nsga2_run_budget (cfg : Cfg) (G : Nat) (init : List Vec) (steps : List StepOracle) (r : RunResult)
+    (hN : 2 ≤ cfg.N) (hG : 1 ≤ G) (hinit : init.length = cfg.N)
+    (h : nsga2Run cfg G init steps = some r) :
+    r.evals = cfg.N * G ∧ r.world.log.length = r.world.failed.length + cfg.N * G := by
+  obtain ⟨s0, s, h0, hl, _, hev, hw, _⟩ := nsga2Run_some h
+  have F0 := nsga2Init_some h0
+  have key := loop_history (cfg := cfg)
+    (fun k s => s.world.log.length = s.world.failed.length + cfg.N * (k + 1)) (fun _ _ => True) (fun _ _ _ => True)
+    (by
+      intro it o s s' hi _ hstep
+      obtain ⟨offs, fc, r, F⟩ := nsga2Step_some hstep
+      have hc := (stepEval_length F.heval).2
+      have hn := (run_generate_size cfg hN _ _ F.hgen).1
+      refine ⟨?_, trivial, trivial⟩
+      rw [F.hworld, Nat.mul_succ]
+      omega)
+    (G - 1) steps s0 s (init_book F0) hl (by rw [init_count F0, hinit]; simp) trivial
+  have hcount := key.2.1
+  have e : G - 1 + 1 = G := by omega
+  rw [e] at hcount
+  refine ⟨?_, by rw [hw]; exact hcount⟩
+  rw [hev]; unfold okCalls; omega
+
+/-- **Generations.**  Everything recorded carries a tag in `1..G`; every generation `1..G` has
+exactly `N` designs; within every generation after the first the designs are pairwise different.
+
+Hypothesis `hfirst` – needed for the *first* iteration only, later ones inherit distinct parents
+from `truncate_nodup`: either the initial generation (as evaluated) consists of pairwise different
+designs, or no objective call fails and `==` is reflexive, so that the `N` pairwise unequal
+offspring of `generate_size` are `N` different designs.  (With failures a re-rolled vector may in
+principle collide with another design; then `set()` leaves fewer than `N`.) -/
+theorem nsga2_run_generations (cfg : Cfg) (G : Nat) (init : List Vec) (steps : List StepOracle) (r : RunResult)
+    (hN : 2 ≤ cfg.N) (hG : 1 ≤ G) (hinit : init.length = cfg.N)
+    (h : nsga2Run cfg G init steps = some r)
+    (hfirst : ((gen 1 r.recorded).map (·.d.vec)).Nodup ∨
+      ((∃ f, cfg.env.AlwaysOk f) ∧ ∀ v, cfg.eq v v = true)) :
+    (∀ m ∈ r.recorded, 1 ≤ m.tag ∧ m.tag ≤ G) ∧
+    (∀ t, 1 ≤ t → t ≤ G → (gen t r.recorded).length = cfg.N) ∧
+    (∀ t, 2 ≤ t → t ≤ G → ((gen t r.recorded).map (·.d.vec)).Nodup) := by
+  obtain ⟨s0, s, h0, hl, hrec, _, _, _⟩ := nsga2Run_some h
+  have F0 := nsga2Init_some h0
+  have e : G - 1 + 1 = G := by omega
+  have hlen0 : s0.parents.length = cfg.N := by rw [F0.hlen, hinit]
+  -- generation 1 of the record is the initial population
+  have hg1 : gen 1 r.recorded = s0.parents := by
+    have key := loop_history (cfg := cfg) (fun _ _ => True) (fun t g => t = 1 → g = s0.parents) (fun _ _ _ => True)
+      (by intro it o s s' _ _ _; exact ⟨trivial, by omega, trivial⟩)
+      (G - 1) steps s0 s (init_book F0) hl trivial (fun _ => rfl)
+    rw [hrec]; exact key.2.2.1 1 (by omega) (by omega) rfl
+  rcases hfirst with hnd | ⟨⟨f, hok⟩, hrefl⟩
+  · rw [hg1] at hnd
+    have key := loop_history (cfg := cfg) (fun _ _ => True)
+      (fun _ g => g.length = cfg.N ∧ (g.map (·.d.vec)).Nodup) (fun _ _ _ => True)
+      (by
+        intro it o s s' _ hr hstep
+        obtain ⟨offs, fc, r, F⟩ := nsga2Step_some hstep
+        exact ⟨trivial, ⟨step_size_of_parents F hr.2 hr.1, step_nodup F⟩, trivial⟩)
+      (G - 1) steps s0 s (init_book F0) hl trivial ⟨hlen0, hnd⟩
+    rw [e] at key
+    rw [hrec]
+    exact ⟨fun m hm => by have := key.1.tags m hm; omega,
+      fun t h1 h2 => (key.2.2.1 t h1 h2).1, fun t h1 h2 => (key.2.2.1 t (by omega) h2).2⟩
+  · have key := loop_history (cfg := cfg) (fun _ _ => True)
+      (fun t g => g.length = cfg.N ∧ (2 ≤ t → (g.map (·.d.vec)).Nodup)) (fun _ _ _ => True)
+      (by
+        intro it o s s' _ _ hstep
+        obtain ⟨offs, fc, r, F⟩ := nsga2Step_some hstep
+        obtain ⟨hn, hne⟩ := run_generate_size cfg hN _ _ F.hgen
+        refine ⟨trivial, ⟨step_size_of_offspring F ?_ hn, fun _ => step_nodup F⟩, trivial⟩
+        -- no call fails: the evaluated offspring still carry the vectors `generate` returned
+        have hv : (stepEval cfg s offs).2.1.map (·.vec) = offs := by
+          unfold stepEval
+          rw [evalSerial_ok hok]
+          simp only [List.map_map]
+          have : ∀ (k : Nat) (vs : List Vec),
+              (freshFrom k cfg.prec vs).map ((fun d : Design => d.vec) ∘ evalOne cfg.env f) = vs := by
+            intro k vs
+            induction vs generalizing k with
+            | nil => rfl
+            | cons v vs ih =>
+              simp only [freshFrom, List.map_cons, Function.comp, ih]
+              simp [evalOne, fresh, succeed]
+          exact this _ _
+        rw [hv]
+        unfold NoEq at hne
+        exact hne.imp (fun {a b} hab e => by subst e; rw [hrefl] at hab; cases hab))
+      (G - 1) steps s0 s (init_book F0) hl trivial ⟨hlen0, fun h2 => by omega⟩
+    rw [e] at key
+    rw [hrec]
+    exact ⟨fun m hm => by have := key.1.tags m hm; omega,
+      fun t h1 h2 => (key.2.2.1 t h1 h2).1, fun t h1 h2 => (key.2.2.1 t (by omega) h2).2 h1⟩
+
+/-- Member `y` dominates member `x` (verdict `1` of the comparator on their signed costs). -/
+def DomM (y x : Member) : Prop :=
+  ∃ my mx, y.d.marker = some my ∧ x.d.marker = some mx ∧ paretoCompare y.d.signed x.d.signed my mx = 1
+
+/-- Elitism of one iteration, for the front numbers that `fnds` computes *inside* the step:
+`nsga2_elitism` (C02 + C03) applied to the merged population of the run model.  Its hypotheses
+are discharged here: `SameLen` and `RankConsistent` follow from "costs are a function of the
+design" (`Good`, which evaluation establishes for a pure objective and parent copies inherit). -/
+theorem nsga2_step_elitism (cfg : Cfg) (it : Nat) (o : StepOracle) (s s' : RunState)
+    (f : Vec → List Rat) (m : Nat) (hp : Pure cfg.env f) (hlen : ∀ v, (f v).length = m)
+    (hgood : ∀ p ∈ s.parents, Good cfg.env f cfg.prec p.d)
+    (h : nsga2Step cfg it o s = some s') :
+    ∀ x ∈ s'.parents, ∀ y ∈ s.parents, (∀ z ∈ s'.parents, z.d.vec ≠ y.d.vec) → ¬ DomM y x := by
+  obtain ⟨offs, fc, r, F⟩ := nsga2Step_some h
+  have hg := stepMerged_good hp hgood F.heval
+  obtain ⟨pop, hpl, hfc, hs, hget, hfront, hc⟩ := sorting_facts hg hlen F.hsort
+  obtain ⟨hsl, _, hsg⟩ := step_survivors F
+  have hil := mkInds_length hfc
+  intro x hx y hy hdrop ⟨my, mx, hmy, hmx, hdom⟩
+  obtain ⟨k, hk, rfl⟩ := List.mem_iff_getElem.1 hx
+  obtain ⟨j0, hj0, rfl⟩ := List.mem_iff_getElem.1 hy
+  obtain ⟨hd, _, exd, _⟩ := hsg k hk (by omega)
+  obtain ⟨hjm, ev, es, em⟩ := stepMerged_parent F.heval j0 hj0
+  have hir : r[k]'(by omega) ∈ r := List.getElem_mem _
+  have hdisc : DesignDiscarded (mkInds (stepMerged cfg s offs) fc) r
+      ((mkInds (stepMerged cfg s offs) fc)[offs.length + j0]'(by omega)) := by
+    refine ⟨List.getElem_mem _, ?_⟩
+    rintro x' ⟨i', hi', hx'⟩ hde
+    obtain ⟨k', hk', rfl⟩ := List.mem_iff_getElem.1 hi'
+    obtain ⟨hd', _, ezd, _⟩ := hsg k' (by omega) hk'
+    obtain ⟨_, ex'⟩ := List.getElem?_eq_some_iff.1 hx'
+    rw [← ex', mkInds_get hfc _ hd', mkInds_get hfc _ hjm] at hde
+    have hv := (designId_inj hd' hjm).1 hde
+    exact hdrop _ (List.getElem_mem (by omega : k' < s'.parents.length)) (by rw [ezd, hv, ev])
+  have := nsga2_elitism pop hs _ (by rw [hil, hpl]) hfront hc cfg.N o.setOrder r F.htrunc
+    (r[k]'(by omega)) (offs.length + j0) hir (by omega) (by omega) hdisc
+  apply this
+  unfold Dom
+  rw [popCmp_eq (by omega) (by omega), hget _ (by omega) hjm, hget _ (by omega) hd]
+  simp only
+  have g1 := (hg _ (List.getElem_mem hjm)).marker
+  have g2 := (hg _ (List.getElem_mem hd)).marker
+  rw [em, hmy] at g1
+  rw [← exd, hmx] at g2
+  rw [es, ← exd, ← Option.some.inj g1, ← Option.some.inj g2]
+  exact hdom
+
+/-- **Generational elitism of the run.**  For a pure objective with cost vectors of one length
+(faults are allowed): between consecutive recorded generations no surviving design is dominated
+by a design of the previous generation that was dropped (no design of the next generation has
+its vector). -/
+theorem nsga2_run_elitism (cfg : Cfg) (G : Nat) (init : List Vec) (steps : List StepOracle) (r : RunResult)
+    (f : Vec → List Rat) (m : Nat) (hp : Pure cfg.env f) (hlen : ∀ v, (f v).length = m)
+    (h : nsga2Run cfg G init steps = some r) :
+    ∀ t, 1 ≤ t → t < G → ∀ x ∈ gen (t + 1) r.recorded, ∀ y ∈ gen t r.recorded,
+      (∀ z ∈ gen (t + 1) r.recorded, z.d.vec ≠ y.d.vec) → ¬ DomM y x := by
+  obtain ⟨s0, s, h0, hl, hrec, _, _, _⟩ := nsga2Run_some h
+  have F0 := nsga2Init_some h0
+  have key := loop_history (cfg := cfg)
+    (fun _ s => ∀ p ∈ s.parents, Good cfg.env f cfg.prec p.d) (fun _ _ => True)
+    (fun _ g g' => ∀ x ∈ g', ∀ y ∈ g, (∀ z ∈ g', z.d.vec ≠ y.d.vec) → ¬ DomM y x)
+    (by
+      intro it o s s' hi _ hstep
+      obtain ⟨offs, fc, r, F⟩ := nsga2Step_some hstep
+      exact ⟨step_good F hp hi, trivial, nsga2_step_elitism cfg it o s s' f m hp hlen hi hstep⟩)
+    (G - 1) steps s0 s (init_book F0) hl (init_good F0 hp) trivial
+  intro t h1 h2
+  rw [hrec]
+  exact key.2.2.2 t h1 (by omega)
+
+/-- One iteration, single unconstrained objective: for every parent there is a survivor that is
+at least as good (its own copy if the design survives; otherwise *any* survivor, because no
+survivor is dominated by a dropped parent). -/
+theorem nsga2_step_best (cfg : Cfg) (it : Nat) (o : StepOracle) (s s' : RunState) (f : Vec → List Rat)
+    (hN : 1 ≤ cfg.N) (hp : Pure cfg.env f) (hone : ∀ v, (f v).length = 1) (hsg : cfg.env.signs ≠ [])
+    (hcons : ∀ v, cfg.env.cons v = []) (hgood : ∀ p ∈ s.parents, Good cfg.env f cfg.prec p.d)
+    (h : nsga2Step cfg it o s = some s') :
+    ∀ y ∈ s.parents, ∃ x ∈ s'.parents, ∃ cx cy, x.d.signed = [cx] ∧ y.d.signed = [cy] ∧ cx ≤ cy := by
+  obtain ⟨offs, fc, r, F⟩ := nsga2Step_some h
+  have hgood' := step_good F hp hgood
+  intro y hy
+  obtain ⟨cy, hcy⟩ := signed_single (hgood y hy) hone hsg
+  by_cases hex : ∃ z ∈ s'.parents, z.d.vec = y.d.vec
+  · obtain ⟨z, hz, hv⟩ := hex
+    refine ⟨z, hz, cy, cy, ?_, hcy, le_refl _⟩
+    rw [(hgood' z hz).signed, hv, ← (hgood y hy).signed, hcy]
+  · have hdrop : ∀ z ∈ s'.parents, z.d.vec ≠ y.d.vec := fun z hz e => hex ⟨z, hz, e⟩
+    -- there is a survivor
+    have hpos : 0 < s'.parents.length := by
+      obtain ⟨j0, hj0, rfl⟩ := List.mem_iff_getElem.1 hy
+      obtain ⟨hjm, ev, _, _⟩ := stepMerged_parent F.heval j0 hj0
+      have h1 := C03.truncate_size _ _ _ _ F.htrunc
+      have h2 := distinct_of_vecs (step_fc_length F) [s.parents[j0].d.vec] (by simp)
+        (by intro v hv; simp only [List.mem_singleton] at hv; subst hv; exact ⟨_, List.getElem_mem hjm, ev⟩)
+      rw [(step_survivors F).1, h1]
+      simp only [List.length_singleton] at h2
+      omega
+    have hx : s'.parents[0] ∈ s'.parents := List.getElem_mem hpos
+    obtain ⟨cx, hcx⟩ := signed_single (hgood' _ hx) hone hsg
+    refine ⟨_, hx, cx, cy, hcx, hcy, ?_⟩
+    by_contra hlt
+    have hlt' : cy < cx := not_le.1 hlt
+    apply nsga2_step_elitism cfg it o s s' f 1 hp hone hgood h _ hx y hy hdrop
+    refine ⟨1, 1, ?_, ?_, ?_⟩
+    · rw [(hgood y hy).marker, markerFn_unconstrained hcons]
+    · rw [(hgood' _ hx).marker, markerFn_unconstrained hcons]
+    · rw [hcy, hcx]; exact pareto_single cy cx hlt'
+
+/-- **Best cost never gets worse.**  Single objective (`costs_signed` has one entry), no
+constraints, pure objective (faults allowed): for every design of generation `t` generation
+`t + 1` contains a design whose signed cost is at most as large – so the minimum over a recorded
+generation never increases. -/
+theorem nsga2_best_monotone (cfg : Cfg) (G : Nat) (init : List Vec) (steps : List StepOracle) (r : RunResult)
+    (f : Vec → List Rat) (hN : 1 ≤ cfg.N) (hp : Pure cfg.env f) (hone : ∀ v, (f v).length = 1)
+    (hsg : cfg.env.signs ≠ []) (hcons : ∀ v, cfg.env.cons v = [])
+    (h : nsga2Run cfg G init steps = some r) :
+    ∀ t, 1 ≤ t → t < G → ∀ y ∈ gen t r.recorded,
+      ∃ x ∈ gen (t + 1) r.recorded, ∃ cx cy, x.d.signed = [cx] ∧ y.d.signed = [cy] ∧ cx ≤ cy := by
+  obtain ⟨s0, s, h0, hl, hrec, _, _, _⟩ := nsga2Run_some h
+  have F0 := nsga2Init_some h0
+  have key := loop_history (cfg := cfg)
+    (fun _ s => ∀ p ∈ s.parents, Good cfg.env f cfg.prec p.d) (fun _ _ => True)
+    (fun _ g g' => ∀ y ∈ g, ∃ x ∈ g', ∃ cx cy, x.d.signed = [cx] ∧ y.d.signed = [cy] ∧ cx ≤ cy)
+    (by
+      intro it o s s' hi _ hstep
+      obtain ⟨offs, fc, r, F⟩ := nsga2Step_some hstep
+      exact ⟨step_good F hp hi, trivial, nsga2_step_best cfg it o s s' f hN hp hone hsg hcons hi hstep⟩)
+    (G - 1) steps s0 s (init_book F0) hl (init_good F0 hp) trivial
+  intro t h1 h2
+  rw [hrec]
+  exact key.2.2.2 t h1 (by omega)
+
+/-! ### ε-MOEA run model -/
+
+/-- Every acceptance step of the run model keeps the size of the working population
+(`popAccept_size` for `Individual.__eq__` on the vectors). -/
+theorem epsmoea_accept_size (cfg : Cfg) (hrefl : ∀ v, cfg.eq v v = true) :
+    PopSize (fun a b => cfg.eq a.d.vec b.d.vec) :=
+  fun pop flags x p1 p2 hpos =>
+    popAccept_size (fun a b => cfg.eq a.d.vec b.d.vec) (fun a => hrefl a.d.vec) pop flags x p1 p2 hpos
+
+/-- **ε-MOEA.**  A run that ends recorded generations `0..G` of exactly `N` designs each (nothing
+under another tag), made `N·(G+1)` successful evaluations, and its working population – which
+went through `N·G` acceptance steps – still has `N` members. -/
+theorem epsmoea_run_budget_generations (cfg : Cfg) (eps : List Rat) (G : Nat) (init : List Vec)
+    (steps : List EpsOracle) (r : EpsResult) (hN : 2 ≤ cfg.N) (hinit : init.length = cfg.N)
+    (hrefl : ∀ v, cfg.eq v v = true) (h : epsMoeaRun cfg eps G init steps = some r) :
+    r.evals = cfg.N * (G + 1) ∧ r.world.log.length = r.world.failed.length + cfg.N * (G + 1) ∧
+    (∀ m ∈ r.recorded, m.tag ≤ G) ∧ (∀ t, t ≤ G → (gen t r.recorded).length = cfg.N) ∧
+    r.pop.length = cfg.N := by
+  obtain ⟨s0, s, h0, hl, hrec, hev, hw, hpop⟩ := epsMoeaRun_some h
+  have I0 := epsInit_inv h0
+  rw [hinit] at I0
+  rw [List.range_eq_range'] at hl
+  have I := epsLoop_induct (cfg := cfg) (eps := eps) (fun k s => EpsInv cfg.N k s)
+    (fun it o s s' hi hstep => epsStep_inv (epsmoea_accept_size cfg hrefl)
+      (fun ps offs hg => (run_generate_size cfg hN ps offs hg).1) (by omega) hi hstep)
+    G 0 steps s0 s hl I0
+  simp only [Nat.zero_add] at I
+  refine ⟨?_, by rw [hw]; exact I.count, by rw [hrec]; exact I.tags, by rw [hrec]; exact I.sizes,
+    by rw [hpop]; exact I.pop⟩
+  rw [hev]; unfold okCalls; have := I.count; omega
+
+end RunModel
+
+/-! ### Non-vacuity of the run-model theorems
+
+A concrete run with `N = 2`, `G = 3`, one objective `f v = [v₀]`; the first call on the second
+initial design fails with a transient error and the design is re-rolled to `[5]`.  Generation 1
+is `[1], [5]`; iteration 0 delivers the children `[3], [4]` and keeps `[1], [3]`; iteration 1
+delivers `[1], [0]` – the offspring `[1]` equals a parent, `set()` keeps the parent's copy – and
+keeps `[0], [1]`.  (The `set()` oracles list the de-duplicated merged population in sorted order,
+so that the kernel can evaluate the run, `runS_sound_P`.) -/
+section NonVacuity
+open Artap.Nsga2 Artap.Eval
+
+def exEnv : Env :=
+  { obj := fun key n v => if key = 1 ∧ n = 0 then .transient 0 else .ok [v.headD 0],
+    reroll := fun _ _ => [5], cons := fun _ => [], signs := [1], rnd := fun _ y => y }
+
+def exCfg : Cfg := { env := exEnv, eq := fun a b => decide (a = b), prec := 7, N := 2 }
+
+def exSteps : List StepOracle :=
+  [{ children := [([3], [4])], setOrder := [2, 0, 1, 3] },
+   { children := [([1], [0])], setOrder := [1, 2, 3] }]
+
+/-- The run ends; 6 = N·G successful evaluations out of 7 calls; generation 1 has no repetition
+(hypothesis `hfirst` of `nsga2_run_generations`); the best cost goes 1, 1, 0. -/
+example : ∃ r, nsga2Run exCfg 3 [[1], [2]] exSteps = some r ∧
+    (decide (((gen 1 r.recorded).map (·.d.vec)).Nodup) && r.evals == 6 && r.world.log.length == 7 &&
+      ((gen 3 r.recorded).map (·.d.signed) == [[0], [1]])) = true :=
+  runS_sound_P _ (by decide +kernel)
+
+example : Pure exEnv (fun v => [v.headD 0]) := by
+  intro key n v c h
+  simp only [exEnv] at h
+  split at h
+  · cases h
+  · cases h; rfl
+
+example : (∀ v, ((fun v : Vec => [v.headD 0]) v).length = 1) ∧ exEnv.signs ≠ [] ∧ (∀ v, exEnv.cons v = []) :=
+  ⟨fun _ => rfl, by simp [exEnv], fun _ => rfl⟩
+
+/-- The other alternative of `hfirst`: an objective that never fails, reflexive `==`. -/
+example : (∃ f, ({ exEnv with obj := fun _ _ v => .ok [v.headD 0] } : Env).AlwaysOk f) ∧
+    ∀ v, exCfg.eq v v = true :=
+  ⟨⟨fun v => [v.headD 0], fun _ _ _ => rfl⟩, fun v => by simp [exCfg]⟩
+
+/-- An ε-MOEA run with `N = 2`, `G = 2`, ε = 1/2 that ends: 6 = N·(G+1) evaluations, 7 calls. -/
+example : (epsMoeaRun exCfg [1 / 2] 2 [[1], [2]]
+    [{ children := [([3], [4])], picks := [(0, 0), (0, 1)] },
+     { children := [([0], [0]), ([0], [2])], picks := [(0, 0), (1, 0)] }]).map
+      (fun r => r.evals == 6 && r.world.log.length == 7 && r.pop.length == 2) = some true := by
+  decide +kernel
+
+end NonVacuity
 
 /-! ## Non-vacuity -/
 example : generate (fun (a b : Nat) => a == b) 3 [(1, 1), (1, 2), (3, 4)] [] = some [1, 2, 3] := by decide
